@@ -1089,6 +1089,11 @@ def mk_call(fn, args=(), kwargs=()):
             return mk_or([mk_call('isinstance', [args[0], c]) for c in ca.args])
         if ca is not None and ca.kind == 'tuple' and len(ca.args) == 1:
             args = [args[0], ca.args[0]]
+    if fn in ('multiply', 'add', 'subtract', 'divide', 'true_divide') and len(args) == 2 and not kwargs and \
+            all(isinstance(x, Term) for x in args):
+        # the numpy ufunc spelling of an arithmetic operator
+        a_, b_ = args
+        return a_ * b_ if fn == 'multiply' else a_ + b_ if fn == 'add' else a_ - b_ if fn == 'subtract' else a_ / b_
     if fn in ('minimum', 'maximum') and len(args) == 2 and not kwargs:
         fn = fn[:3]             # element-wise minimum/maximum of two values: the same function as two-argument min/max
     if fn == 'clip' and len(args) == 1 and set(dict(kwargs)) == {'a_min', 'a_max'}:
